@@ -7,6 +7,7 @@ package snowflake_client
 
 import (
 	"bytes"
+	"crypto/rand"
 	"crypto/sha256"
 	"io"
 	"io/ioutil"
@@ -24,6 +25,7 @@ import (
 )
 
 type c11Recorder struct {
+	nomask   bool
 	seen     int
 	line     string
 	status   int
@@ -63,8 +65,12 @@ func (rt *c11Recorder) RoundTrip(req *http.Request) (*http.Response, error) {
 		b, _ := ioutil.ReadAll(req.Body)
 		body = c11x(b)
 	}
+	ep := req.URL.EscapedPath()
+	if !rt.nomask {
+		ep = c11MaskPad(ep)
+	}
 	rt.line = strings.Join([]string{c11x([]byte(req.Method)), c11x([]byte(req.URL.Scheme)), c11x([]byte(req.URL.Host)),
-		c11x([]byte(req.Host)), c11x([]byte(c11MaskPad(req.URL.EscapedPath()))), c11x([]byte(req.URL.RawQuery)), body}, ",")
+		c11x([]byte(req.Host)), c11x([]byte(ep)), c11x([]byte(req.URL.RawQuery)), body}, ",")
 	h := http.Header{}
 	if rt.location != "" {
 		h.Set("Location", rt.location)
@@ -230,6 +236,13 @@ func c11Case(a []string) string {
 		r, err := newAMPCacheRendezvous(broker, cache, string(c11Payload(a[3])), rt)
 		if err != nil {
 			return "!construct"
+		}
+		// the cache-breaker bytes of this case: crypto/rand hands out exactly these, and the path is not masked
+		if len(a) > 16 {
+			old := rand.Reader
+			rand.Reader = bytes.NewReader(c11Payload(a[16]))
+			rt.nomask = true
+			defer func() { rand.Reader = old }()
 		}
 		d, err := r.Exchange(c11Payload(a[4]))
 		return c11Result(rt, resp, d, err)
